@@ -5,6 +5,7 @@ import (
 	"go/constant"
 	"go/token"
 	"go/types"
+	"os"
 	"strings"
 
 	"golang.org/x/tools/go/ssa"
@@ -187,7 +188,7 @@ func (f *frame) nilCheck(st *bstate, v ssa.Value, lv *LV, pos token.Pos) {
 	case *ssa.Phi:
 		_ = p
 	}
-	if !f.eng().opts.NilChecks {
+	if !f.eng().opts.NilChecks && os.Getenv("GVC_NIL") == "" {
 		return
 	}
 	f.oblige(st, "nil", f.text(pos, v.Name()), fmt.Sprintf("(not (= %s 0))", lv.ref), pos)
@@ -405,6 +406,10 @@ func (f *frame) binopTerm(op token.Token, a, b TV, rs string, opndTy types.Type,
 				}
 			}
 			t := "(iand " + a.T + " " + bt + ")"
+			if y, ok := parseIntLit(bt); ok && y > 0 && (y&(y+1)) == 0 {
+				// x & (2^k-1) == x mod 2^k for x >= 0
+				vc.assert(fmt.Sprintf("(=> (>= %s 0) (= %s (mod %s %d)))", a.T, t, a.T, y+1))
+			}
 			// 0 <= x&y <= y for y >= 0 (and symmetrically)
 			vc.assert(fmt.Sprintf("(and (=> (>= %s 0) (and (>= %s 0) (<= %s %s))) (=> (>= %s 0) (and (>= %s 0) (<= %s %s))))", bt, t, t, bt, a.T, t, t, a.T))
 			return t
@@ -787,7 +792,12 @@ func (f *frame) typeAssert(x *ssa.TypeAssert, st *bstate) {
 	var ok string
 	var res TV
 	if it, isI := x.AssertedType.Underlying().(*types.Interface); isI {
-		ok = f.implements(v.T, x.AssertedType, it)
+		if st, isSI := x.X.Type().Underlying().(*types.Interface); isSI && types.Implements(st, it) {
+			// static type already guarantees the methods: only nil fails
+			ok = "(not (= (i_tag " + v.T + ") 0))"
+		} else {
+			ok = f.implements(v.T, x.AssertedType, it)
+		}
 		res = TV{T: v.T, S: "Iface", Ty: x.AssertedType}
 	} else {
 		ok = fmt.Sprintf("(= (i_tag %s) %d)", v.T, vc.tagOf(x.AssertedType))
